@@ -292,7 +292,7 @@ impl Property for C03 {
         "C03"
     }
     fn rule(&self) -> String {
-        "small (exhaustive over a seeded sample of stores): stores of 0..4 UTxOs over addresses {A,B,C} x lovelace {0,1,2,5} x two tokens {0,1,3}; queries = address {none,A,B} x ref {none, own, foreign, dangling} x min_amount {absent} or per class {absent,0,1,2,4}^3 x {single,many} x {input,collateral}, every query against every sampled store; random: stores of 1..50 and 51..200 UTxOs with amounts up to 2^62, the same query shapes plus hand-built multi-ref queries (soundness only). Oracle: brute force over the store written against the statement (soundness of the bound set; completeness on the candidate set when it has <= 50 members). Non-trivial: the query has >= 2 constraints and the store has both candidate and non-candidate UTxOs; distinct = distinct (store, query).".into()
+        "small (exhaustive over a seeded sample of stores): stores of 0..4 UTxOs over addresses {A,B,C} x lovelace {0,1,2,5} x two tokens {0,1,3}; queries = address {none,A,B} x ref {none, own, foreign, dangling} x min_amount {absent} or per class {absent,0,1,2,4}^3 x {single,many} x {input,collateral}, every query against every sampled store; tight: 1..50 candidates at the queried address among up to 80 others, the threshold set to the exact total of the candidates (multi-UTxO) or to the one dominating candidate (single), so that losing any candidate anywhere (narrowing, window, selection, excess trimming) turns a resolvable query into a failure; random: stores of 1..50 and 51..200 UTxOs with amounts up to 2^62, the same query shapes plus hand-built multi-ref queries (soundness only). Oracle: brute force over the store written against the statement (soundness of the bound set; completeness on the candidate set when it has <= 50 members). Non-trivial: the query has >= 2 constraints and the store has both candidate and non-candidate UTxOs; distinct = distinct (store, query).".into()
     }
     fn assumptions(&self) -> Vec<String> {
         vec![
@@ -302,12 +302,12 @@ impl Property for C03 {
     }
     fn phases(&self, tier: Tier) -> Vec<Phase> {
         match tier {
-            Tier::Quick => vec![Phase::new("small", 120, Profile::Release), Phase::new("random", 6_000, Profile::Release)],
-            Tier::Thorough => vec![Phase::new("small", 2_500, Profile::Release), Phase::new("random", 300_000, Profile::Release)],
+            Tier::Quick => vec![Phase::new("small", 120, Profile::Release), Phase::new("random", 6_000, Profile::Release), Phase::new("tight", 6_000, Profile::Release)],
+            Tier::Thorough => vec![Phase::new("small", 2_500, Profile::Release), Phase::new("random", 300_000, Profile::Release), Phase::new("tight", 300_000, Profile::Release)],
         }
     }
     fn required_features(&self, _tier: Tier) -> Vec<String> {
-        ["outcome/resolved", "outcome/not-resolved", "outcome/too-broad", "store/narrow-by-address", "store/narrow-by-asset", "store/fetch-dangling", "store/fetch-window-full", "shape/from+ref", "shape/collateral", "shape/many", "shape/multi-ref"]
+        ["outcome/resolved", "outcome/not-resolved", "outcome/too-broad", "store/narrow-by-address", "store/narrow-by-asset", "store/fetch-dangling", "store/fetch-window-full", "shape/from+ref", "shape/collateral", "shape/many", "shape/multi-ref", "tight/needs-all-candidates", "tight/window-nearly-full", "tight/single-unique-cover"]
             .iter()
             .map(|s| s.to_string())
             .collect()
@@ -363,6 +363,73 @@ impl Property for C03 {
                 }
             }
             ctx.sample(|| json!({"phase": "small", "store": store.iter().map(|u| json!({"addr": u.address[1], "lovelace": amount(u, 0), "T1": amount(u, 1), "T2": amount(u, 2)})).collect::<Vec<_>>(), "queries": "every (address, ref, min_amount, single/many, input/collateral) combination"}));
+        } else if phase == "tight" {
+            // the completeness boundary: the candidate set (<= 50, next to non-candidates) covers the
+            // threshold only when (nearly) all of it is used - any candidate the narrowing, the window
+            // or the selector loses turns a resolvable query into InputNotResolved
+            let a = 1 + rng.below(2) as u8;
+            let n_cand = match rng.below(4) {
+                0 => 1 + rng.usize(8),
+                1 => 20 + rng.usize(20),
+                _ => 40 + rng.usize(11), // 40..50: the window is nearly or exactly full
+            };
+            if n_cand >= 40 {
+                ctx.count("tight/window-nearly-full");
+            }
+            let n_other = rng.usize(80);
+            let with_token = rng.chance(2, 3);
+            // which candidates hold the token: few, about half, or all
+            let token_pct = *rng.pick(&[10u64, 50, 90, 100]);
+            let mut store: Vec<Utxo> = vec![];
+            let mut k = 0u32;
+            for _ in 0..n_cand {
+                k += 1;
+                let t1 = if with_token && rng.below(100) < token_pct { rng.range(1, 9) as i128 } else { 0 };
+                store.push(mk_utxo(k, a, rng.range(1, 40) as i128, t1, 0));
+            }
+            if with_token && store.iter().all(|u| amount(u, 1) == 0) {
+                let l = amount(&store[0], 0);
+                store[0] = mk_utxo(1, a, l, 3, 0);
+            }
+            for _ in 0..n_other {
+                k += 1;
+                let other = if a == 1 { 2 + rng.below(2) as u8 } else { *rng.pick(&[1u8, 3]) };
+                store.push(mk_utxo(k, other, rng.range(1, 60) as i128, if rng.chance(1, 3) { rng.range(1, 9) as i128 } else { 0 }, if rng.chance(1, 5) { 2 } else { 0 }));
+            }
+            // shuffle so that candidates are not the first references the store returns
+            for i in (1..store.len()).rev() {
+                let j = rng.usize(i + 1);
+                store.swap(i, j);
+            }
+            let cands: Vec<&Utxo> = store.iter().filter(|u| u.address == addr(a)).collect();
+            let many = rng.chance(3, 4);
+            let q = if many {
+                let slack = if rng.chance(2, 3) { 0 } else { rng.range(0, 3) as i128 };
+                let tot0: i128 = cands.iter().map(|u| amount(u, 0)).sum();
+                let tot1: i128 = cands.iter().map(|u| amount(u, 1)).sum();
+                ctx.count("tight/needs-all-candidates");
+                let t = if with_token { Some((tot1 - if rng.bool() { 0 } else { slack }).max(1)) } else { None };
+                Query { address: Some(a), refs: vec![], min: Some([Some((tot0 - slack).max(0)), t, None]), many: true, collateral: false }
+            } else {
+                // exactly one candidate covers: make it dominate the others in both classes
+                let pick = rng.usize(cands.len());
+                let r = cands[pick].r#ref.clone();
+                let big0 = 100 + rng.range(0, 50) as i128;
+                let big1 = if with_token { 20 } else { 0 };
+                let pos = store.iter().position(|u| u.r#ref == r).unwrap();
+                let n = u32::from_be_bytes(store[pos].r#ref.txid[..4].try_into().unwrap());
+                store[pos] = mk_utxo(n, a, big0, big1, 0);
+                ctx.count("tight/single-unique-cover");
+                Query { address: Some(a), refs: vec![], min: Some([Some(big0 - rng.range(0, 2) as i128), if with_token { Some(big1) } else { None }, None]), many: false, collateral: false }
+            };
+            ctx.count("shape/many");
+            let nt = self.check(ctx, &store, &q, true, phase);
+            if nt {
+                ctx.nontrivial(fnv64(format!("tight{idx}{q:?}{}", store.len()).as_bytes()));
+            }
+            if idx % 997 == 0 {
+                ctx.sample(|| json!({"phase": "tight", "store_size": store.len(), "candidates": n_cand, "query": format!("{q:?}").chars().take(300).collect::<String>()}));
+            }
         } else {
             let big = idx % 4 == 0;
             let n = if big { 51 + rng.usize(150) } else { 1 + rng.usize(50) };
